@@ -55,18 +55,13 @@ impl Desc {
     /// the descriptor as the mangler would see it if it had the confusions in `models`
     fn canon(&self, models: &BTreeSet<String>) -> Desc {
         let mut comps: Vec<String> = self.path.clone();
-        // the file's own `.capy` is always stripped (that is intended)
-        if let Some(last) = comps.last_mut() {
-            if let Some(s) = last.strip_suffix(".capy") {
-                *last = s.to_string();
-            }
-        }
-        if models.contains("capy-suffix-strip") {
-            for c in comps.iter_mut() {
-                if c.contains('.') {
-                    if let Some(s) = c.strip_suffix(".capy") {
-                        *c = s.to_string();
-                    }
+        // the file's own `.capy` is always stripped (that is intended); with the
+        // capy-suffix-strip confusion one `.capy` is stripped from *every* component
+        let n = comps.len();
+        for (i, c) in comps.iter_mut().enumerate() {
+            if i + 1 == n || models.contains("capy-suffix-strip") {
+                if let Some(s) = c.strip_suffix(".capy") {
+                    *c = s.to_string();
                 }
             }
         }
